@@ -10,7 +10,7 @@ use crate::report::{BfsConfig, Config, Tier};
 use crate::tablesut::TProbe;
 use crate::inv;
 
-fn lay<L: Lay>(coll: Coll, plan: Plan, universe: u8, tier: Tier) -> Box<dyn Config> {
+pub fn lay<L: Lay>(coll: Coll, plan: Plan, universe: u8, tier: Tier) -> Box<dyn Config> {
     let h = LayHarness::<L>::new(coll, plan, universe, true);
     let label = h.label();
     let lim = Limits { max_wall_s: if tier == Tier::Quick { 20.0 } else { 300.0 }, ..Default::default() };
